@@ -1,6 +1,78 @@
-(* C09 - statements only; proofs in the *Facts.v files. (grows) *)
-From Sbdf Require Import Va VaFacts PrimFacts ObjFacts.
-Theorem C09_value_array_wire : forall swp v, wf_va v -> byte_ok (vty v) ->
-  wspec (va_write swp v) (Ok tt) (enc_va swp v) /\ rspec (va_read swp None) (enc_va swp v) v.
-Proof. intros swp v W B. split; [exact (wspec_va swp v W)|exact (rspec_va swp v W B)]. Qed.
-Print Assumptions C09_value_array_wire.
+(* C09 — structural corruption is reported with the matching status code.
+   One theorem per kind of field, for the reader that meets the corrupted field first and on any
+   bytes that follow it.  (That the readers reach the field — i.e. consume the valid sections before
+   it exactly — is C07's "consumes exactly the bytes its writer produced"; the composition over
+   whole files is exercised by the correspondence run: every field of every generated file.)
+   Statements only; proofs in StatusFacts.v. *)
+From Coq Require Import String.
+From Sbdf Require Import File PrimFacts VaFacts SliceFacts StatusFacts.
+From Sbdf.Gen Require Facts.
+Local Open Scope Z_scope.
+
+Theorem C09_marker_bytes : forall b rest,
+  (b <> 223 -> sec_read (b :: rest) = Err SBDF_ERROR_MAGIC_NUMBER_MISSING) /\
+  (b <> 91 -> sec_read (223 :: b :: rest) = Err SBDF_ERROR_MAGIC_NUMBER_MISSING).
+Proof. intros b rest. split; [apply sec_read_bad_marker0|apply sec_read_bad_marker1]. Qed.
+Print Assumptions C09_marker_bytes.
+
+Theorem C09_section_kind : forall swp cap want got ncols subset rest,
+  (got <> want -> sec_expect want (223 :: 91 :: got :: rest) = Err SBDF_ERROR_UNEXPECTED_SECTION_ID) /\
+  ts_read swp cap ncols subset (223 :: 91 :: 5 :: rest) = Err SBDF_TABLEEND /\
+  (got <> 5 -> got <> 3 -> ts_read swp cap ncols subset (223 :: 91 :: got :: rest) = Err SBDF_ERROR_UNEXPECTED_SECTION_ID).
+Proof.
+  intros. split; [apply sec_expect_wrong_id|split; [apply ts_read_end_of_table|apply ts_read_other_section]].
+Qed.
+Print Assumptions C09_section_kind.
+
+Theorem C09_negative_sizes : forall swp cap v tail ty ncols subset, i32_range v -> v < 0 ->
+  tm_read swp cap ([223; 91; 2] ++ enc32 swp v ++ tail) = Err SBDF_ERROR_INVALID_SIZE /\           (* entry count *)
+  obj_read_arr swp cap ty (enc32 swp v ++ tail) = Err SBDF_ERROR_INVALID_SIZE /\                   (* element count *)
+  ts_read swp cap ncols subset ([223; 91; 3] ++ enc32 swp v ++ tail) = Err SBDF_ERROR_INVALID_SIZE /\ (* slice column count *)
+  read_string swp cap (enc32 swp v ++ tail) = Err SBDF_ERROR_INVALID_SIZE /\                       (* string length *)
+  read_elem swp cap ty false (enc32 swp v ++ tail) = Err SBDF_ERROR_INVALID_SIZE.                   (* string/binary value length *)
+Proof.
+  intros swp cap v tail ty ncols subset R H.
+  split; [now apply tm_read_negative_entry_count|]. split; [now apply obj_read_arr_negative_count|].
+  split; [now apply ts_read_negative_column_count|]. split; [now apply read_string_negative_length|now apply read_elem_negative_length].
+Qed.
+Print Assumptions C09_negative_sizes.
+
+Theorem C09_presence_flag : forall swp cap vt f rest, f <> 0 -> f <> 1 ->
+  read_metadata_values swp cap vt (f :: rest) = Err SBDF_ERROR_ARRAY_LENGTH_MUST_BE_1.
+Proof. exact read_metadata_values_bad_flag. Qed.
+Print Assumptions C09_presence_flag.
+
+Theorem C09_unknown_type_id : forall swp cap ty count packed s, 0 <= count -> is_arr ty = false -> usize ty < 0 ->
+  read_objects swp cap ty count packed s = Err SBDF_ERROR_UNKNOWN_TYPEID.
+Proof. intros. apply read_objects_unknown_type; try assumption. now apply usize_unknown. Qed.
+Print Assumptions C09_unknown_type_id.
+
+Theorem C09_unknown_encoding_id : forall swp cap e vt rest,
+  e <> SBDF_PLAINARRAYENCODINGTYPEID -> e <> SBDF_RUNLENGTHENCODINGTYPEID -> e <> SBDF_BITARRAYENCODINGTYPEID ->
+  va_read swp cap (e :: vt :: rest) = Err SBDF_ERROR_UNKNOWN_VALUEARRAY_ENCODING /\
+  va_skip swp (e :: vt :: rest) = Err SBDF_ERROR_UNKNOWN_VALUEARRAY_ENCODING.
+Proof. exact va_read_unknown_encoding. Qed.
+Print Assumptions C09_unknown_encoding_id.
+
+Theorem C09_column_count_mismatch : forall swp cols ncols subset tail, wf_ts cols -> ncols <> zlen cols ->
+  ts_read swp None ncols subset (enc_ts swp cols ++ tail) = Err SBDF_ERROR_COLUMN_COUNT_MISMATCH.
+Proof. exact ts_read_count_mismatch. Qed.
+Print Assumptions C09_column_count_mismatch.
+
+(* row counts: refused at read when negative, at the first decode when inconsistent with the runs *)
+Theorem C09_row_counts : forall swp cap e vt v tail ty n runs vals,
+  (e = SBDF_RUNLENGTHENCODINGTYPEID \/ e = SBDF_BITARRAYENCODINGTYPEID -> i32_range v -> v < 0 ->
+     va_read swp cap (e :: vt :: enc32 swp v ++ tail) = Err SBDF_ERROR_INVALID_SIZE) /\
+  ((is_arr ty = true \/ 0 < usize ty) -> (length runs <> length vals \/ rle_total runs <> n) ->
+     va_get_values {| vty := ty; venc := SBDF_RUNLENGTHENCODINGTYPEID; value1 := n;
+                      o1 := Some (byte_obj runs); o2 := Some {| oty := ty; oelems := vals |} |} = Err SBDF_ERROR_INVALID_SIZE).
+Proof. intros. split; [apply va_read_negative_row_count|apply get_values_inconsistent_rows]. Qed.
+Print Assumptions C09_row_counts.
+
+(* every status macro used anywhere in the library's sources has its own textual description, over
+   the table regenerated from sbdf_err_get_str on every run *)
+Theorem C09_descriptions :
+  forallb (fun e => negb (String.eqb (describe e) Facts.err_default)) Facts.status_uses = true /\
+  forallb (fun p => forallb (fun q => Z.eqb (fst p) (fst q) || negb (String.eqb (snd p) (snd q))) Facts.err_table) Facts.err_table = true.
+Proof. split; [exact every_used_status_described|exact descriptions_distinct]. Qed.
+Print Assumptions C09_descriptions.
